@@ -404,7 +404,7 @@ def rand_pipeline(rng, n_faults):
     kinds += ["disparity"]
     kinds += [["filter", "refinement", "validation", "filter"][int(x)] for x in rng.integers(0, 4, int(rng.integers(0, 5)))]
     keys = pipes.keys_for(kinds, suffix_first=set(kinds) if rng.random() < 0.2 else None,
-                          style=["num", "alpha", "dotted", "word"][int(rng.integers(0, 4))])
+                          style=["num", "alpha", "dotted", "word", "kindname"][int(rng.integers(0, 5))])
     pipe = {}
     slots = []
     for key in keys:
